@@ -1,21 +1,22 @@
 #!/bin/sh
-# Run once after a fresh restore, offline: builds the harness from files on disk only
-# and parses every specification module.
+# Run once after a fresh restore, offline: builds the harness commands of the registered engines from files on disk
+# and parses their specification modules.
 set -e
 cd "$(dirname "$0")"
 export GOFLAGS=-mod=mod GOPROXY=off GOSUMDB=off GOTOOLCHAIN=local
-python3 - <<'PY'
-import sys, os, glob
+CMDS=$(grep -v '^#' tools/registered_cmds.txt)
+SPECS=$(grep -v '^#' tools/registered_specs.txt)
+python3 - $CMDS <<'PY'
+import sys, os
 sys.path.insert(0, 'lib')
 import vp
 vp.gen_gomod()
-for d in sorted(glob.glob('harness/cmd/*')):
-    vp.build_harness('./cmd/' + os.path.basename(d))
+for c in sys.argv[1:]:
+    vp.build_harness('./cmd/' + c)
 PY
 mkdir -p .work/sany && cp spec/*.tla .work/sany/ && cd .work/sany
-for f in *.tla; do
-  case "$f" in *Trace*.tla) continue;; esac   # trace modules read a trace file at parse time
-  timeout 120 tla-sany "$f" >/dev/null 2>&1 || { echo "SANY failed: $f"; timeout 120 tla-sany "$f" | tail -20; exit 1; }
+for f in $SPECS; do
+  timeout 120 tla-sany "$f.tla" >/dev/null 2>&1 || { echo "SANY failed: $f"; timeout 120 tla-sany "$f.tla" | tail -20; exit 1; }
 done
 cd ../.. && rm -rf .work/sany
 echo setup ok
